@@ -114,6 +114,9 @@ def objScope (o : Nat) : Nat := 1000000 + o
 /-- Scope of the class-level defaults of class `c`. -/
 def clsScope (c : Nat) : Nat := 2000000 + c
 def attrKey (o i : Nat) : Nat := o * 64 + i
+/-- Name of method `f` (index in `Prog.funs`) in the namespace of its class: defined by the `def` line in
+the class body, read by every call through an instance (`obj.m(…)`, `self.m(…)`). -/
+def methName (f : Nat) : Nat := 5000 + f
 
 def evalBin : BinOp → Int → Int → Int
   | .add, a, b => a + b
@@ -215,7 +218,8 @@ structure CallSpec where
   args : List Expr
   selfObj : Nat                     -- receiver object of the new frame (`0`: module function)
   selfUses : Option (List Var)      -- what `self` is bound from (`none`: no `self`)
-  callUses : List Var               -- what selects the callee (the receiver of a method call)
+  callUses : List Var               -- what selects the callee (the receiver of a method call and the
+                                    -- class-level definition of the method found through it)
   created : Option (Nat × Nat)      -- object creation: (object, class)
 
 def callSpec (p : Prog) (frame : Nat) (env : Env) (self : Nat) (st : St) : Stmt → Option CallSpec
@@ -229,7 +233,8 @@ def callSpec (p : Prog) (frame : Nat) (env : Env) (self : Nat) (st : St) : Stmt 
     | some fn =>
       -- monomorphic fragment: `f` must be a method of the receiver's class
       if o != 0 && fn.cls == codeOfFn st.clsOf o + 1 then
-        some ⟨ln, tg, some f, args, o, some [recvVar frame r], [recvVar frame r], none⟩
+        some ⟨ln, tg, some f, args, o, some [recvVar frame r],
+              [recvVar frame r, ⟨clsScope (codeOfFn st.clsOf o), methName f⟩], none⟩
       else none
     | none => none
   | .new ln tg c args =>
@@ -355,7 +360,10 @@ def sortByLine (l : List (Nat × List Var)) : List (Nat × List Var) := l.foldr 
 /-- Module import: `G<i> = n`, `def f`, `class C` and class-level `a<i> = n` lines, in line order. -/
 def importEvents (p : Prog) : List Ev :=
   let gs := p.ginit.map (fun t => (t.1, [(⟨globalScope, t.2.1⟩ : Var)]))
-  let fs := p.funs.map (fun f => (f.defLn, ([] : List Var)))
+  -- `def m` in a class body defines the class-level name `m` (module functions: called by name from the
+  -- test case / the module, their `def` line is not part of the fragment's dependence relation)
+  let fs := p.funs.zipIdx.map (fun f =>
+    (f.1.defLn, if f.1.cls == 0 then ([] : List Var) else [(⟨clsScope (f.1.cls - 1), methName f.2⟩ : Var)]))
   let cs := p.classes.zipIdx.flatMap (fun k =>
     (k.1.ln, ([] : List Var)) :: k.1.defaults.map (fun t => (t.1, [(⟨clsScope k.2, t.2.1⟩ : Var)])))
   let all := sortByLine (gs ++ fs ++ cs)
